@@ -115,7 +115,7 @@ def run(chk):
         rl = [{"l": r["l"], "r": _seq(r["r"])} for r in c["rules"]]
         if i % 6 == 0:
             rl.sort(key=lambda r: (r["l"] != "S", r["l"], r["r"]))
-        inputs.append({"i": i, "rules": rl, "inputs": ws, "incremental": i % 3 == 0})
+        inputs.append({"i": i, "rules": rl, "inputs": ws, "incremental": i % 3 == 0, "eps": i % 4 == 1, "regen": i % 5 == 2})
     got = {}
     for recs, rc, err, part in parallel_th(tha, ["lr"], inputs, timeout=2400):
         for r in recs:
@@ -160,6 +160,10 @@ def run(chk):
                     break
             if not cf:
                 silent[0] += 1          # canonical LR(1) has a conflict, none reported: behaviour was still compared with Lang above
+        for mode in ("full", "pre"):
+            if "conflict2" in r[mode] and r[mode]["conflict2"] != r[mode]["conflict"]:
+                problems.append("%s mode: generating the tables a second time reports %s, the first time %s"
+                                % (mode, "a conflict" if r[mode]["conflict2"] else "no conflict", "a conflict" if r[mode]["conflict"] else "none"))
         exp_first = {n: sorted(_seq(c["first"][n])) for n in c["first"]}
         act_first = {n: sorted(r["first"][n]) for n in c["first"]}
         if exp_first != act_first:
@@ -180,7 +184,7 @@ def run(chk):
                        "left/right recursion, useless symbols); per grammar all inputs of <= %d terminals, full and prefix mode; in the model: "
                        "conflict-free => (driver accepts <=> derivable / some prefix derivable), unique tree, ambiguous => conflict, FIRST; S->I: "
                        "the real LRParser template (ASan/UBSan build): conflict verdicts, accept/reject and returned derivation term for every "
-                       "input, Grammar::first_sets" % (rules, rhs, maxin))
+                       "input, Grammar::first_sets; a quarter of the grammars written with explicit epsilons in every right-hand side, a fifth generated twice" % (rules, rhs, maxin))
     k = len(cases) // 3
     chk.sample({"grammar": inputs[k]["rules"], "conflict_free_full": cases[k]["cfFull"], "first": cases[k]["first"],
                 "runs": [(x["w"], x["acc"], x["val"]) for x in (cases[k]["runsFull"] or [])][:6]})
